@@ -287,6 +287,10 @@ def normalize(vectors, bilinear_form=None):
         respect to the given bilinear form).
 
     """
+    if np.can_cast(np.asarray(vectors).dtype, int):
+        #integer data cannot hold the normalized vectors
+        vectors = np.asarray(vectors).astype('float64')
+
     sq_norms = normsq(vectors, bilinear_form)
 
     abs_norms = np.sqrt(np.abs(np.expand_dims(sq_norms, axis=-1)))
